@@ -178,3 +178,73 @@ theorem mapOk_replicate (np : Nat) : MapOk np (Array.replicate np inv) := by
   simp
 
 end Draco.Eb
+
+namespace Draco.Eb
+open Draco
+
+theorem getBit_lt_two (r : BitReader) : (r.getBit).1 < 2 := by
+  unfold BitReader.getBit
+  split
+  · simp
+  · split <;> simp <;> omega
+
+theorem getBit_decoded_le (r : BitReader) : (r.getBit).2.decoded ≤ r.decoded + 1 := by
+  unfold BitReader.getBit
+  split
+  · simp
+  · split <;> simp
+
+theorem getBitsAux_two (r : BitReader) : (BitReader.getBitsAux 2 0 0 r).1 < 4 := by
+  simp only [BitReader.getBitsAux]
+  have h1 := getBit_lt_two r
+  have h2 := getBit_lt_two (r.getBit).2
+  generalize (r.getBit).2.getBit = q at *
+  generalize r.getBit = p at *
+  obtain ⟨a, r1⟩ := p
+  obtain ⟨b, r2⟩ := q
+  simp at *
+  omega
+
+theorem getBitsAux_two_decoded (r : BitReader) :
+    (BitReader.getBitsAux 2 0 0 r).2.decoded ≤ r.decoded + 2 := by
+  simp only [BitReader.getBitsAux]
+  have h1 := getBit_decoded_le r
+  have h2 := getBit_decoded_le (r.getBit).2
+  generalize hq : (r.getBit).2.getBit = q at *
+  generalize hp : r.getBit = p at *
+  obtain ⟨a, r1⟩ := p
+  obtain ⟨b, r2⟩ := q
+  simp at *
+  omega
+
+/-- the standard traversal decoder only produces the five topology bit patterns and consumes at
+    most three bits per symbol -/
+theorem decodeSymbolStd_spec (r : BitReader) :
+    (decodeSymbolStd r).1 ∈ [topoC, topoS, topoL, topoR, topoE] ∧
+    (decodeSymbolStd r).2.decoded ≤ r.decoded + 3 := by
+  unfold decodeSymbolStd
+  have hb := getBit_lt_two r
+  have hd := getBit_decoded_le r
+  generalize hp : r.getBit = p at *
+  obtain ⟨b, r1⟩ := p
+  simp only
+  have hs := getBitsAux_two r1
+  have hs2 := getBitsAux_two_decoded r1
+  generalize hq : BitReader.getBitsAux 2 0 0 r1 = q at *
+  obtain ⟨s, r2⟩ := q
+  have htc : topoC = 0 := by decide
+  have hts : topoS = 1 := by decide
+  have htl : topoL = 3 := by decide
+  have htr : topoR = 5 := by decide
+  have hte : topoE = 7 := by decide
+  simp only [htc, hts, htl, htr, hte] at *
+  by_cases h0 : b = 0
+  · subst h0; simp at *; omega
+  · have hb1 : b = 1 := by omega
+    subst hb1
+    simp at *
+    refine ⟨?_, by omega⟩
+    have : s = 0 ∨ s = 1 ∨ s = 2 ∨ s = 3 := by omega
+    rcases this with h | h | h | h <;> subst h <;> simp
+
+end Draco.Eb
